@@ -31,7 +31,7 @@ HEADER = ('From Coq Require Import List. Import ListNotations.\n'
           'Require Import Aiuti.Keys Aiuti.Case_C14 AiutiGen.T_KeyExpr.')
 CASE_TYPE = 'Case_C14.case'
 VERDICT = 'Case_C14.verdict'
-CLEAN_FOR_THOROUGH = ['theories/KeysInv.vo', 'theories/KeysMon.vo']     # proofs only; Keys.vo/Case_C14.vo are shared with C15's evaluation
+CLEAN_FOR_THOROUGH = ['theories/KeysInv.vo', 'theories/KeysMon.vo', 'theories/KeysMonN.vo']     # proofs only; Keys.vo/Case_C14.vo are shared with C15's evaluation
 PARALLEL = 16
 CHUNK = 500
 
@@ -56,8 +56,17 @@ VALUES = [
     (lambda: '(1, 2)', 10),               # 16
     (lambda: -1, 11),                     # 17 (hash(-1) == hash(-2))
     (lambda: -2, 12),                     # 18
+    # positional values shaped like keyword ITEMS (a flattened key args + kwargs.items() confuses
+    # f(1, ('x', 1)) with f(1, x=1)); NAMES[0] == 'x', NAMES[1] == 'y'
+    (lambda: ('x', 1), 13),               # 19
+    (lambda: tuple(['x', 1.0]), 13),      # 20 equal, other object
+    (lambda: ('y', 'a'), 14),             # 21
+    (lambda: (('x', 1),), 15),            # 22 a tuple of items
 ]
 NAMES = ['x', 'y', 'z', 'w']
+# case['ret']: the wrapped function returns an identity-less value instead of a tagged object
+# (a `.get(key) is not None` / truthiness test on the cached value mistakes it for a miss)
+PLAIN_RET = {'none': None, 'zero': 0, 'empty': '', 'false': False}
 PREFILL_TAG = 99
 ERR_TAG = 97          # the call raised
 FOREIGN_TAG = 98      # a value in the mapping / returned that is not one of ours
@@ -140,10 +149,12 @@ def run_impl(case):
     cur = [0]
     ninv = [0]
 
+    plain = PLAIN_RET.get(case.get('ret'), Res)
+
     async def f(*args, **kwargs):
         ninv[0] += 1
         await asyncio.sleep(0)
-        return Res(cur[0])
+        return Res(cur[0]) if plain is Res else plain
 
     if case.get('form', 'direct') == 'direct':
         wrapped = threadsafe_async_cache(f, cache=m) if m is not None or case.get('explicit_none') \
@@ -191,6 +202,12 @@ def error_obs(case, o):
     return [[9, ERR_TAG, [FOREIGN_TAG]] for _ in case['events']]
 
 
+def plain_case(ret, kind, events, **kw):
+    """calls only, retaining store, function returning None / 0 / '' / False"""
+    assert kind in ('default', 'dict', 'hmap') and all(e[0] == 'call' for e in events)
+    return mk(kind, events, ret=ret, **kw)
+
+
 # ---- Coq literals ---------------------------------------------------------
 
 def _nats(l):
@@ -218,6 +235,8 @@ def _evs(case):
 
 
 def to_coq(case, obs):
+    if case.get('ret'):
+        return f"C14N {_kind(case)} {_evs(case)} {_nats([min(a, 9) for a, r, c in obs])}"
     o = C.coq_list([f'({a}, {r}, {_nats(c)})' for a, r, c in obs])
     return f"C14 {_kind(case)} {C.coq_bool(case.get('prefill', False))} {_evs(case)} {o}"
 
@@ -277,6 +296,15 @@ def corpus():
         # LRU(1)
         mk('lru1', [c([0]), c([0]), c([3]), c([0]), c([0])], loop='fresh'),
         mk('default', [c([0]), c([0])], explicit_none=True),
+        # the wrapped function returns None / falsy values: still cached, still shared
+        plain_case('none', 'default', [c([0]), c([1]), c([3]), c([0]), c([], [[0, 0]]), c([], [[0, 1]])]),
+        plain_case('none', 'dict', [c([0]), c([0]), c([0])], form='deco'),
+        plain_case('zero', 'hmap', [c([3]), c([4]), c([0])]),
+        plain_case('false', 'default', [c([5]), c([6]), c([5], [[0, 0]])], loop='fresh'),
+        plain_case('empty', 'dict', [c([]), c([]), c([7])]),
+        # positional (name, value) tuples vs. keyword arguments: never shared
+        mk('dict', [c([0], [[0, 0]]), c([0, 19]), c([0, 20]), c([], [[0, 0]]), c([19]), c([22])]),
+        mk('default', [c([0, 19]), c([0], [[0, 0]]), c([21], [[0, 0]]), c([19], [[1, 3]]), c([19, 21])], form='deco'),
     ]
     return out
 
@@ -316,6 +344,25 @@ def gen_exhaustive(tier, seed):
             evs = [call(*a), call(*b), call(*a)] if n % 2 else [call(*b), call(*a)]
             out.append(mk(kind, evs, form='deco' if (n // 3) % 2 else 'direct',
                           loop='fresh' if n % 7 == 0 else 'one'))
+            n += 1
+    # positional values shaped like keyword items against the calls passing them as keywords
+    item_pos = [[19], [0, 19], [21], [19, 21], [0, 20], [22], [0, 22]]
+    kw_sigs = [([], [[0, 0]]), ([0], [[0, 0]]), ([], [[1, 3]]), ([], [[0, 0], [1, 3]]), ([0], [[0, 1]]),
+               ([19], []), ([0, 19], [[1, 3]])]
+    for a in item_pos:
+        for (bp, bk) in kw_sigs:
+            for kind in ('default', 'dict', 'lru2'):
+                out.append(mk(kind, [call(bp, bk), call(a), call(bp, bk), call(a)],
+                              form='deco' if n % 2 else 'direct'))
+                n += 1
+    # identity-less results (None, 0, '', False): every pair of a small universe, retaining stores
+    small = [([], []), ([0], []), ([1], []), ([3], []), ([0, 3], []), ([], [[0, 0]]), ([0], [[0, 0]]),
+             ([], [[0, 0], [1, 3]]), ([], [[1, 3], [0, 1]]), ([7], [])]
+    for i, a in enumerate(small):
+        for b in small[i:]:
+            ret = list(PLAIN_RET)[n % 4]
+            out.append(plain_case(ret, ('default', 'dict', 'hmap')[n % 3], [call(*a), call(*b), call(*a), call(*b)],
+                                  form='deco' if n % 2 else 'direct', loop='fresh' if n % 5 == 0 else 'one'))
             n += 1
     # every insertion order of 3 keyword names, against each other
     base = [[0, 0], [1, 3], [2, 5]]
@@ -370,8 +417,12 @@ def _rand_case(rnd, maxlen):
             pool.append(s)
             invoked.append(i)
             evs.append(call(*s))
-    return mk(kind, evs, prefill=rnd.random() < 0.2, form=rnd.choice(['direct', 'deco']),
-              loop='fresh' if rnd.random() < 0.15 else 'one')
+    c = mk(kind, evs, prefill=rnd.random() < 0.2, form=rnd.choice(['direct', 'deco']),
+           loop='fresh' if rnd.random() < 0.15 else 'one')
+    if kind in ('default', 'dict', 'hmap') and not c['prefill'] and all(e[0] == 'call' for e in evs) \
+            and rnd.random() < 0.3:
+        c['ret'] = rnd.choice(list(PLAIN_RET))       # identity-less results
+    return c
 
 
 def gen_random(tier, seed):
@@ -414,12 +465,13 @@ def shrink_candidates(case):
 
 def distribution(cases, obs):
     d = dict(calls=0, evictions=0, hits=0, invocations=0, prefill=0, deco_form=0, fresh_loop=0,
-             kw_calls=0, mixed_calls=0)
+             kw_calls=0, mixed_calls=0, identityless_results=0)
     for k in KINDS:
         d['kind_' + k] = 0
     for c, o in zip(cases, obs):
         d['kind_' + c['kind']] += 1
         d['prefill'] += bool(c.get('prefill'))
+        d['identityless_results'] += bool(c.get('ret'))
         d['deco_form'] += c.get('form') == 'deco'
         d['fresh_loop'] += c.get('loop') == 'fresh'
         for e in c['events']:
@@ -449,7 +501,10 @@ RULE = ('cases = sequences of sequential calls (explicit positional objects and 
         'that produced it), tags held by the user mapping.  exhaustive layer: all unordered pairs of signatures of a '
         'universe (positional 0..2(3), keyword dicts of 0..2 names in both insertion orders) + all pairs of insertion '
         'orders of 3 names; random layer: 3..14 events, up to 3 positional / 3 keyword arguments, mutated repeats '
-        '(permuted keywords, equal-but-distinct objects, positional moved to keyword), evictions.  non-trivial = at '
+        '(permuted keywords, equal-but-distinct objects, positional moved to keyword), evictions.  Round 2 additions: '
+        'positional values shaped like keyword items (("x", 1) vs x=1) against the keyword calls; wrapped functions '
+        'returning identity-less results (None, 0, "", False) on retaining stores, judged on invocation counts '
+        '(Case_C14.C14N / mon_n).  non-trivial = at '
         'least two calls and at least one invocation (Case_C14.nontrivial)')
 EXHAUSTIVE_NOTE = ('all unordered pairs of a signature universe (quick: 8 positional tuples x 25 keyword dicts = 200 '
                    'signatures; thorough: 26 x 25 = 650) and all 36 pairs of insertion orders of three keyword names')
